@@ -485,6 +485,11 @@ func (group *Group) feedRtpPacket(pkt rtprtcp.RtpPacket) {
 	)
 
 	for s := range group.rtspSubSessionSet {
+		// 还没有收到play信令的session不参与，否则等待关键帧的标志会在play之前被消耗掉，play之后就可能从非关键帧开始发送
+		if s.Stage.Load() != rtsp.SubSessionStageReadPlay {
+			continue
+		}
+
 		// session的 ShouldWaitVideoKeyFrame 为false，那么可能有两种情况：
 		// 1. 对输入流做智能检测时，判定为流内没有视频
 		// 2. 该输出流已经发送过了GOP起始数据
@@ -497,10 +502,11 @@ func (group *Group) feedRtpPacket(pkt rtprtcp.RtpPacket) {
 
 		if !boundaryChecked {
 			switch group.sdpCtx.GetVideoPayloadTypeBase() {
+			// 注意，只有视频包才可能是视频GOP的起始位置，音频包不能按视频的格式去解析
 			case base.AvPacketPtAvc:
-				boundary = rtprtcp.IsAvcBoundary(pkt)
+				boundary = group.sdpCtx.IsVideoPayloadTypeOrigin(int(pkt.Header.PacketType)) && rtprtcp.IsAvcBoundary(pkt)
 			case base.AvPacketPtHevc:
-				boundary = rtprtcp.IsHevcBoundary(pkt)
+				boundary = group.sdpCtx.IsVideoPayloadTypeOrigin(int(pkt.Header.PacketType)) && rtprtcp.IsHevcBoundary(pkt)
 			default:
 				// 注意，不是avc和hevc时，直接发送
 				boundary = true
